@@ -183,7 +183,9 @@ func (workerPoolSelf *DefaultWorkerPool) generateWorkerWithMaximum(maximum int) 
 	go func() {
 		// Recover & Recycle
 		defer func() {
+			panicked := false
 			if panic := recover(); panic != nil {
+				panicked = true
 				if handler := workerPoolSelf.panicHandler; handler != nil {
 					handler(panic)
 				}
@@ -195,6 +197,11 @@ func (workerPoolSelf *DefaultWorkerPool) generateWorkerWithMaximum(maximum int) 
 				workerPoolSelf.workerBusy--
 			}
 			workerPoolSelf.lock.Unlock()
+
+			if panicked {
+				// The panicking job took this worker with it: let the spawn loop replace it if jobs are waiting
+				workerPoolSelf.spawnWorkerCh.Offer(1)
+			}
 		}()
 
 		// Do Jobs
